@@ -112,6 +112,8 @@ def finish(ctx, evidence_dir=None, quiet=False):
         for l in lines:
             print(l)
     if below_floor:
+        for f in violations:
+            print('  (unreported finding) [%s] %s @%s: %s' % (f['rule'], f['construct'], f['where'], f['what']))
         for r, n in below_floor:
             print('ANALYSIS-ERROR property=%s rule %s matched %d instances, floor is %d (anchor vanished?)'
                   % (ctx.pid, r.id, n, r.floor))
